@@ -20,6 +20,11 @@ def regenerate_lock():
     for f, t in certs.items():
         lockcfg.write_if_changed(os.path.join(GEN, f), t)
         files.append(os.path.join(GEN, f))
+    # the Q_MUTEX_* macros as data (obligation macro_skeleton_as_modelled of Props/C13, Props/C14)
+    from translator import mutexmacros
+    mpath = os.path.join(GEN, "MutexMacros.lean")
+    lockcfg.write_if_changed(mpath, mutexmacros.render(mutexmacros.extract(vlib.REPO)))
+    files.append(mpath)
     # stale parts of an earlier run with more parts
     for f in os.listdir(GEN):
         if re.match(r"Lock(Certs|Wl)\d+\.lean$", f) and f not in certs:
@@ -351,3 +356,86 @@ def parse_result(line):
             k, v = w.split("=", 1)
             d[k] = v
     return d
+
+
+# ------------------------------------------------------------------ long-hold scenario (harness/hold.c)
+
+HOLD_WRAPS = ("pthread_mutex_trylock", "pthread_mutex_unlock", "pthread_mutex_lock")
+HOLD_KINDS = ["vector", "list", "queue", "hashtbl", "listtbl", "treetbl"]
+
+
+def hold_scenarios(tier):
+    """T0 holds the container lock while a waiter goes through `rounds` time-outs of Q_MUTEX_ENTER
+    (MAX_MUTEX_LOCK_WAIT polls + forced-unlock attempt each)"""
+    rounds = [1, 3] if tier == "quick" else [1, 2, 3, 5, 8]
+    return ["hold kind=%s init=%d rounds=%d" % (k, 2 if r == 1 else 3, r) for r in rounds for k in HOLD_KINDS]
+
+
+def run_hold(impl_dir, lines):
+    """one process per scenario, all in parallel (each mostly sleeps); -> [(line, result dict, raw)]"""
+    from concurrent.futures import ThreadPoolExecutor
+    hb = vlib.build_harness("hold", impl_dir, "plain", HOLD_WRAPS)
+
+    def one(l):
+        out, rc, err = vlib.run_proc([hb], l + "\n", timeout=120)
+        raw = out[0] if out else "<no output, rc=%s %s>" % (rc, err[-200:])
+        return l, parse_result(raw), raw
+    with ThreadPoolExecutor(16) as ex:
+        return list(ex.map(one, lines))
+
+
+def _content(text, unordered):
+    p = text.split(",")
+    return (p[0], tuple(sorted(p[1:])) if unordered else tuple(p[1:]))
+
+
+def judge_hold_c14(line, r):
+    """C14 clauses: the owner's depth is back to 0, the waiter's call completes, a probe gets in"""
+    if "t0_depth" not in r:
+        return "long-hold harness gave no result: %s" % r
+    bad = []
+    if r["t0_depth"] != "0":
+        bad.append("the owner returned from unlock() with the mutex still held (successful lock calls minus successful "
+                   "unlock calls of the owner = %s)" % r["t0_depth"])
+    if r.get("t1_completed") != "1":
+        bad.append("the waiting thread's call never completed after the owner's unlock()")
+    if r.get("t1_depth", "0") != "0":
+        bad.append("the waiter's call returned at lock depth %s" % r["t1_depth"])
+    if r.get("probe") != "ok":
+        bad.append("a third thread could not lock/unlock the container afterwards")
+    if bad:
+        return ("lock held across %s waiter time-out(s) (%s forced-unlock attempts, %s failed polls observed): " % (
+            dict(x.split("=") for x in line.split()[1:]).get("rounds"), r.get("forced"), r.get("polls"))) + "; ".join(bad)
+    return None
+
+
+def judge_hold_c13(line, r):
+    """C13 clauses: the waiter's update is not visible (and its call does not finish) while the lock is
+    held; afterwards the content is the held content plus the update"""
+    if "walk1" not in r:
+        return "long-hold harness gave no result: %s" % r
+    kind = dict(x.split("=") for x in line.split()[1:]).get("kind")
+    un = kind == "hashtbl"
+    bad = []
+    if _content(r["walk1"], un) != _content(r["walk2"], un):
+        bad.append("two walks by the lock holder inside ONE critical section differ: %s then %s" % (r["walk1"], r["walk2"]))
+    if r.get("t1_done_in_hold") == "1":
+        bad.append("the other thread's mutating call completed while the lock was held")
+    if not bad and r.get("t1_completed") == "1":
+        new = "777" if kind == "vector" else "v777" if kind in ("list", "queue") else "k77=v777"
+        w1 = r["walk1"].split(",")
+        if kind in ("hashtbl", "treetbl"):
+            want = (str(int(w1[0]) + 1), tuple(sorted(w1[1:] + [new])))
+            got = _content(r["final"], True)
+        elif kind == "listtbl":      # the default walk direction of qlisttbl_getnext is last -> first
+            want = (str(int(w1[0]) + 1), tuple([new] + w1[1:]))
+            got = _content(r["final"], False)
+        else:
+            want = (str(int(w1[0]) + 1), tuple(w1[1:] + [new]))
+            got = _content(r["final"], False)
+        if got != want or r.get("t1_ret") != "1":
+            bad.append("final content %s (call returned %s) is not the held content %s plus the update" % (r["final"], r.get("t1_ret"), r["walk1"]))
+    if bad:
+        return ("lock held across %s waiter time-out(s) (%s forced-unlock attempts observed): " % (
+            dict(x.split("=") for x in line.split()[1:]).get("rounds"), r.get("forced"))) + "; ".join(bad)
+    return None
